@@ -40,7 +40,7 @@ type Step struct {
 	Signer int    `json:"signer,omitempty"`
 	Upper  bool   `json:"upper,omitempty"`  // msg.Signer in the upper-case bech32 form
 	Chain  string `json:"chain,omitempty"`  // update: chain; recv: packet source; ack: packet destination ("@self" = own name)
-	Flavor string `json:"flavor,omitempty"` // valid | bad | replay | zero | undec
+	Flavor string `json:"flavor,omitempty"` // valid | bad | replay | zero | undec | tssproof
 	NewTss int    `json:"new_tss,omitempty"`
 	NewUp  bool   `json:"new_up,omitempty"`
 	Dst    string `json:"dst,omitempty"` // recv: packet destination ("" = this chain)
@@ -163,15 +163,27 @@ func genSpec(r *hlib.Rand, id int, nsteps int) Spec {
 		}
 		return 0, false, false
 	}
-	pickChain := func() string { return universe[r.Intn(len(universe))] }
+	pickChain := func() string {
+		switch x := r.Intn(10); {
+		case x < 4:
+			return chainB
+		case x < 7:
+			return "tss-one"
+		}
+		return universe[r.Intn(len(universe))]
+	}
 	for len(sp.Steps) < nsteps {
-		switch k := r.Intn(100); {
-		case k < 26: // governance registration
+		k := r.Intn(100)
+		if len(sp.Steps) < 3 {
+			k = 0 // start with a few registrations
+		}
+		switch {
+		case k < 24: // governance registration
 			st := Step{K: "gov"}
 			switch x := r.Intn(100); {
-			case x < 74:
+			case x < 80:
 				st.Addr = accts[r.Intn(nAccts)].str(false)
-			case x < 86:
+			case x < 92:
 				st.Addr = accts[r.Intn(nAccts)].str(true)
 			default:
 				st.Addr = badAddrs[r.Intn(len(badAddrs))]
@@ -181,7 +193,7 @@ func genSpec(r *hlib.Rand, id int, nsteps int) Spec {
 				n = 0
 			}
 			for i := 0; i < n; i++ {
-				if r.Chance(1, 14) {
+				if r.Chance(1, 30) {
 					st.Chains = append(st.Chains, badChains[r.Intn(len(badChains))])
 				} else {
 					c := pickChain()
@@ -190,6 +202,16 @@ func genSpec(r *hlib.Rand, id int, nsteps int) Spec {
 					}
 					st.Chains = append(st.Chains, c)
 				}
+			}
+			if r.Chance(1, 4) && n > 0 {
+				// make a TSS account a relayer of its own chain (needed for accepted TSS receives)
+				t := sp.TSS[r.Intn(len(sp.TSS))]
+				st.Addr = accts[t.Acct].str(false)
+				c := t.Name
+				if c == "@self" {
+					c = xibctesting.GetChainID(0)
+				}
+				st.Chains[r.Intn(n)] = c
 			}
 			m := n
 			if r.Chance(1, 10) {
@@ -227,9 +249,9 @@ func genSpec(r *hlib.Rand, id int, nsteps int) Spec {
 			// signer: biased towards accounts that could be accepted
 			st.Signer = r.Intn(nAccts)
 			st.Upper = r.Chance(1, 12)
-			if ta, isTss := tssAcct[st.Chain]; isTss && r.Chance(1, 2) {
+			if ta, isTss := tssAcct[st.Chain]; isTss && r.Chance(3, 5) {
 				st.Signer, st.Upper = ta, tssUp[st.Chain] && r.Chance(3, 4)
-			} else if l := listing(real); len(l) > 0 && r.Chance(1, 2) {
+			} else if l := listing(real); len(l) > 0 && r.Chance(3, 5) {
 				if i, up, ok := acctOf(l[r.Intn(len(l))]); ok {
 					st.Signer, st.Upper = i, up
 				}
@@ -241,6 +263,10 @@ func genSpec(r *hlib.Rand, id int, nsteps int) Spec {
 				st.Flavor = "bad"
 			default:
 				st.Flavor = "replay"
+			}
+			if _, isTss := tssAcct[st.Chain]; isTss && st.K != "update" && r.Chance(1, 5) {
+				// attack probe: the configured TSS address supplied as the PROOF by some other signer
+				st.Flavor = "tssproof"
 			}
 			switch st.K {
 			case "update":
@@ -440,7 +466,11 @@ func (w *World) runStep(st Step, canon map[string]string, bech map[string]bool) 
 			}
 			bz, err := p.ABIPack()
 			must(err)
-			m = packettypes.NewMsgRecvPacket(bz, []byte{1}, clienttypes.NewHeight(0, 1), signer.addr)
+			proof := []byte{1}
+			if ta, ok := w.tssAddr(chain); ok && st.Flavor == "tssproof" {
+				proof = []byte(ta)
+			}
+			m = packettypes.NewMsgRecvPacket(bz, proof, clienttypes.NewHeight(0, 1), signer.addr)
 		}
 		m.Signer = o.SignerStr
 		msg = m
@@ -488,6 +518,9 @@ func (w *World) runStep(st Step, canon map[string]string, bech map[string]bool) 
 			} else {
 				p.Sequence += 1000 // no such commitment
 			}
+		}
+		if ta, ok := w.tssAddr(chain); ok && st.Flavor == "tssproof" {
+			proof = []byte(ta)
 		}
 		pbz, err := p.ABIPack()
 		must(err)
